@@ -1034,6 +1034,13 @@ class _EvalBuilder(_Builder):
                 return C(lo[:k])
         if f[0] == "n" and not kw:
             name = f[1]
+            if name in ("zip", "enumerate", "reversed", "sorted", "tuple", "list") and args and all(a[0] == "c" and isinstance(a[1], (tuple, str)) for a in args) \
+                    and (name == "zip" or len(args) == 1):
+                # pure builtins over constant sequences
+                try:
+                    return C(tuple({"zip": zip, "enumerate": enumerate, "reversed": reversed, "sorted": sorted, "tuple": tuple, "list": tuple}[name](*[a[1] for a in args])))
+                except Exception:
+                    return s
             if name == "bool" and len(args) == 1 and args[0][0] == "c":
                 return C(bool(args[0][1]))
             if name == "isinstance" and len(args) == 2 and args[1][0] == "n":
